@@ -3,7 +3,13 @@
 # (/tmp/wt/baselines.json).  Builds the combined patch (refactor + bug) relative
 # to /repo HEAD and evaluates it like any other seed, ids C<nn>-g / C<nn>-h.
 b=$1
-if [ -f /tmp/wt/baselines6.json ] && python3 -c "import json,sys;sys.exit(0 if '$b' in json.load(open('/tmp/wt/baselines6.json')) else 1)"; then
+if [ -f /tmp/wt/baselines7.json ] && python3 -c "import json,sys;sys.exit(0 if '$b' in json.load(open('/tmp/wt/baselines7.json')) else 1)"; then
+  nn=$(python3 -c "import json;print(json.load(open('/tmp/wt/baselines7.json'))['$b']['prop'][1:])")
+  ref=$(python3 -c "import json;print(json.load(open('/tmp/wt/baselines7.json'))['$b']['ref'])")
+  case $b in E2*|E3*) SFXMAP=op ;; *) SFXMAP=mn ;; esac
+  s2=$(python3 -c "import json;print(json.load(open('/tmp/wt/baselines7.json'))['$b'].get('sfx',''))")
+  [ -n "$s2" ] && SFXMAP=$s2
+elif [ -f /tmp/wt/baselines6.json ] && python3 -c "import json,sys;sys.exit(0 if '$b' in json.load(open('/tmp/wt/baselines6.json')) else 1)"; then
   nn=$(python3 -c "import json;print(json.load(open('/tmp/wt/baselines6.json'))['$b']['prop'][1:])")
   ref=$(python3 -c "import json;print(json.load(open('/tmp/wt/baselines6.json'))['$b']['ref'])")
   case $b in D2*|D3*) SFXMAP=kl ;; *) SFXMAP=ij ;; esac
